@@ -2,12 +2,12 @@
 import hc_streams
 import hc_oracles as O
 
-QUICK = {"pair": 120, "ideal": 50, "live": 40, "blackout": 30, "ratepair": 50, "hostile": 200, "tx": 80, "rate": 500, "twin": 80, "reuse": 60, "ackflood": 12}
+QUICK = {"pair": 120, "ideal": 50, "live": 40, "blackout": 30, "ratepair": 50, "hostile": 200, "tx": 80, "rate": 500, "twin": 80, "reuse": 60, "ackflood": 12, "chanmix": 60, "tswin": 60}
 THOROUGH_FACTOR = 12
 
 STREAM_FN = {
     "pair": hc_streams.pair_faulty, "ideal": hc_streams.pair_ideal, "live": hc_streams.pair_liveness,
-    "blackout": hc_streams.pair_blackout, "ratepair": hc_streams.pair_nocredit, "hostile": hc_streams.hostile, "ackflood": hc_streams.ackflood,
+    "blackout": hc_streams.pair_blackout, "ratepair": hc_streams.pair_nocredit, "hostile": hc_streams.hostile, "ackflood": hc_streams.ackflood, "chanmix": hc_streams.chanmix, "tswin": hc_streams.tswin,
     "tx": hc_streams.tx, "rate": hc_streams.rate, "twin": hc_streams.twin, "reuse": hc_streams.reuse,
 }
 
